@@ -11,6 +11,7 @@
           core_dates      W3CDTF string written as dcterms:created / dcterms:modified (default: not written)
           zip_stored      True stores the parts uncompressed (default False = deflate)
           math_seed       seed of the C19 Labeler used per formula (default 0);  labeler: a shared Labeler instance
+          math_word_props True: a formula tree may hold w: elements (w:rPr inside m:r); default False = rejected
   docx    block_sdt       True: a top-level ["p", [["sdt", ..]]] becomes a block-level w:sdt around the paragraph
           last_rendered_breaks  True: w:lastRenderedPageBreak in the first paragraph after every page break
   pptx    no_offsets      True: shapes carry no a:xfrm (graphic frames keep the schema-mandatory p:xfrm, all zero)
@@ -18,6 +19,8 @@
           math_fallback_image     True (default): the mc:Fallback shape of a formula shape has a picture fill
   xlsx    inline_strings  True: strings as t="inlineStr" instead of sharedStrings.xml
           sheet_images    {sheet index (0-based): [image key, ...]} (alternative to sheet extras {"images": [...]})
+          comments_at     [[sheet index (0-based), row, col, text], ...]: cell comments (xl/commentsN.xml + the legacy VML drawing
+                          Excel writes with it); the cell itself may be empty (no c element)
 
 Output is deterministic (fixed ZIP timestamps, no clock, no randomness). Anything that the target format cannot
 express raises NotImplementedError; malformed input (bad sheet name, unknown image key, XML-illegal characters)
@@ -186,10 +189,10 @@ class _Package:
         return bio.getvalue()
 
 
-_OPTS_COMMON = ("image_ref", "alt", "core_dates", "zip_stored", "math_seed", "labeler")
+_OPTS_COMMON = ("image_ref", "alt", "core_dates", "zip_stored", "math_seed", "labeler", "math_word_props")
 OPTS_DOCX = _OPTS_COMMON + ("block_sdt", "last_rendered_breaks", "br_type", "cell_sdt")
 OPTS_PPTX = _OPTS_COMMON + ("no_offsets", "comment_part_numbering", "math_fallback_image", "slide_part_numbers")
-OPTS_XLSX = _OPTS_COMMON + ("inline_strings", "sheet_images", "date1904")
+OPTS_XLSX = _OPTS_COMMON + ("inline_strings", "sheet_images", "date1904", "comments_at")
 
 
 def _check_opts(opts, allowed):
@@ -378,16 +381,26 @@ def _math_xml(tree, opts):
     except OverflowError as e:
         raise NotImplementedError("formula has more unique runs than the Labeler alphabet") from e
     pre = "{" + NS_M + "}"
+    prew = "{" + NS_W + "}"
+    wprops = bool(opts.get("math_word_props"))      # allow w: elements (w:rPr inside m:r, as Word writes them)
     out = []
 
     def ser(e, top):
-        if not e.tag.startswith(pre):
+        if wprops and e.tag.startswith(prew):
+            name = "w:" + e.tag[len(prew):]
+        elif not e.tag.startswith(pre):
             raise ValueError("non-OMML element in formula tree: " + e.tag)
-        name = "m:" + e.tag[len(pre):]
+        else:
+            name = "m:" + e.tag[len(pre):]
         out.append("<" + name)
         if top:
             out.append(' xmlns:m="%s"' % NS_M)
+            if wprops:
+                out.append(' xmlns:w="%s"' % NS_W)
         for k, v in e.attrib.items():
+            if wprops and k.startswith(prew):
+                out.append(' w:%s="%s"' % (k[len(prew):], _attr(v)))
+                continue
             if not k.startswith(pre):
                 raise ValueError("non-OMML attribute in formula tree: " + k)
             out.append(' m:%s="%s"' % (k[len(pre):], _attr(v)))
@@ -1410,6 +1423,26 @@ def _xlsx_drawing(imgs, pool, keys, first_row):
     return "".join(x)
 
 
+def _xlsx_comment_parts(notes):
+    """notes = [(row, col, text)] of one sheet -> (comments part, legacy VML drawing part) as Excel writes them"""
+    x = [XML_DECL, '<comments xmlns="%s"><authors><author>%s</author></authors><commentList>' % (NS_S, AUTHOR)]
+    v = ['<xml xmlns:v="urn:schemas-microsoft-com:vml" xmlns:o="urn:schemas-microsoft-com:office:office" '
+         'xmlns:x="urn:schemas-microsoft-com:office:excel"><o:shapelayout v:ext="edit"><o:idmap v:ext="edit" data="1"/></o:shapelayout>'
+         '<v:shapetype id="_x0000_t202" coordsize="21600,21600" o:spt="202" path="m,l,21600r21600,l21600,xe"><v:stroke joinstyle="miter"/>'
+         '<v:path gradientshapeok="t" o:connecttype="rect"/></v:shapetype>']
+    for n, (r, c, text) in enumerate(sorted(notes)):
+        x.append('<comment ref="%s%d" authorId="0"><text><r>%s</r></text></comment>' % (col_letters(c), r + 1, _t_elem(text)))
+        v.append('<v:shape id="_x0000_s%d" type="#_x0000_t202" style="position:absolute;margin-left:60pt;margin-top:2pt;width:108pt;'
+                 'height:60pt;z-index:%d;visibility:hidden" fillcolor="#ffffe1" o:insetmode="auto"><v:fill color2="#ffffe1"/>'
+                 '<v:shadow on="t" color="black" obscured="t"/><v:path o:connecttype="none"/><v:textbox style="mso-direction-alt:auto">'
+                 '<div style="text-align:left"></div></v:textbox><x:ClientData ObjectType="Note"><x:MoveWithCells/><x:SizeWithCells/>'
+                 '<x:Anchor>%d, 15, %d, 2, %d, 15, %d, 1</x:Anchor><x:AutoFill>False</x:AutoFill><x:Row>%d</x:Row><x:Column>%d</x:Column>'
+                 '</x:ClientData></v:shape>' % (1025 + n, n + 1, c + 1, r, c + 3, r + 4, r, c))
+    x.append("</commentList></comments>")
+    v.append("</xml>")
+    return "".join(x), "".join(v)
+
+
 def xlsx(doc, images=None, opts=None) -> bytes:
     """ADM -> SpreadsheetML package. doc[2] = [["sheet", name, grid] or ["sheet", name, grid, {"images": [key, ...]}], ...]."""
     opts = _check_opts(opts, OPTS_XLSX)
@@ -1435,6 +1468,14 @@ def xlsx(doc, images=None, opts=None) -> bytes:
     writer = _Sheet(sst, bool(opts.get("inline_strings")), bool(opts.get("date1904")))
     extra_imgs = opts.get("sheet_images") or {}
     sheet_parts, drawing_parts = [], []
+    notes_at, note_parts = {}, []
+    for ent in opts.get("comments_at") or []:
+        si, r, c, text = ent
+        if not (isinstance(si, int) and 0 <= si < len(sheets)) or r < 0 or c < 0:
+            raise ValueError("comments_at names a sheet / cell that does not exist")
+        if any((r, c) == (r2, c2) for r2, c2, _ in notes_at.get(si, [])):
+            raise ValueError("comments_at: a cell has one comment")
+        notes_at.setdefault(si, []).append((r, c, text))
     rids = []
     for i, u in enumerate(sheets, 1):
         name = "xl/worksheets/sheet%d.xml" % i
@@ -1447,7 +1488,15 @@ def xlsx(doc, images=None, opts=None) -> bytes:
             drid = pkg.rel(name, RT + "drawing", "../drawings/drawing%d.xml" % dn)
             imgs = _Images(pool, dname, "../media/", "../../xl/media/")
             drawing_parts.append((dname, _xlsx_drawing(imgs, pool, keys, len(u[2]) + 1)))
-        sheet_parts.append((name, writer.xml(u[2], drid)))
+        sheet_xml = writer.xml(u[2], drid)
+        if notes_at.get(i - 1):
+            nn = len(note_parts) + 1
+            pkg.rel(name, RT + "comments", "../comments%d.xml" % nn)
+            lrid = pkg.rel(name, RT + "vmlDrawing", "../drawings/vmlDrawing%d.vml" % nn)
+            cx, vx = _xlsx_comment_parts(notes_at[i - 1])
+            note_parts.append(("xl/comments%d.xml" % nn, cx, "xl/drawings/vmlDrawing%d.vml" % nn, vx))
+            sheet_xml = sheet_xml[:-len("</worksheet>")] + '<legacyDrawing r:id="%s"/></worksheet>' % lrid
+        sheet_parts.append((name, sheet_xml))
     pkg.rel(wbn, RT + "styles", "styles.xml")
     if sst:
         pkg.rel(wbn, RT + "sharedStrings", "sharedStrings.xml")
@@ -1469,6 +1518,10 @@ def xlsx(doc, images=None, opts=None) -> bytes:
         pkg.add("xl/sharedStrings.xml", "".join(x), CT_S + "sharedStrings+xml")
     for name, xml in drawing_parts:
         pkg.add(name, xml, CT_DRAWING)
+    for cname, cx, vname, vx in note_parts:
+        pkg.defaults["vml"] = "application/vnd.openxmlformats-officedocument.vmlDrawing"
+        pkg.add(cname, cx, CT_S + "comments+xml")
+        pkg.add(vname, vx)
     pkg.parts.extend(media)
     return pkg.tobytes()
 
